@@ -5,6 +5,14 @@ From Verif Require Import Outcome Cmp Sha3.
 From C30 Require Import Model.
 Import ListNotations.
 
+(* a 32-byte value written as one number (big-endian), so that case files parse fast *)
+Fixpoint be_bytes (k : nat) (n : N) (acc : bytes) : bytes :=
+  match k with
+  | O => acc
+  | S k' => be_bytes k' (N.div n 256) (N.modulo n 256 :: acc)
+  end.
+Definition B (n : N) : bytes := be_bytes 32 n [].
+
 (* one validation attempt derived from the generated proof of the case *)
 Inductive op :=
 | OHash (i : nat) (h : hash)                 (* proof hash i replaced *)
